@@ -24,7 +24,8 @@
    5. further frame instances (fields never written, counters/log only grow, places stable);
    6. the strong form and its consequences up to the API and to call sequences;
    7. a boolean check for concrete states, scripts, and a non-vacuity example with run-time
-      generation.
+      generation;
+   8. fuel monotonicity of the whole block, of the API and of scripts.
    Proof file. *)
 From PFDL Require Import Examples.
 From PFDL Require Import NetModel NetRun NetC08.
